@@ -357,18 +357,25 @@ def check_derivations(chk, rng, items, mechanism="select-derivations"):
     """A filtered schema is a value: deriving further schemas from it (`q.include(...)`, `q.exclude(...)`, several
     children of one parent) must not change what the parent — or any sibling — offers.  Every schema of a derivation
     tree is inspected again after the whole tree has been built and judged against its OWN filters."""
+    pending = []
     for it in items:
         specs = it["specs"]
         if len(specs) < 2:
             continue
         tree = [(it["schema"], [])]            # (schema, filters applied on the way from the root)
+        steps = []                             # [parent index, is include, filter number] for SV.Model.C20Derive
         for sp in specs:
-            parent, applied = tree[rng.randrange(len(tree))] if rng.random() < 0.4 else tree[-1]
+            pi = rng.randrange(len(tree)) if rng.random() < 0.4 else len(tree) - 1
+            parent, applied = tree[pi]
             child, got = apply_filters(parent, [sp])
             if got:
                 tree.append((child, applied + got))
+                steps.append([pi, bool(sp["include"]), len(steps) + 1])
         if len(tree) < 3:
             continue
+        # correspondence with the heap model (clone copies both sets): how many include / exclude filters each schema of the
+        # tree holds once the whole tree exists
+        pending.append((steps, [[len(sc.filter_set._includes), len(sc.filter_set._excludes)] for sc, _ in tree]))
         roots = py_root_fields(it["schema"])
         path = it["schema"].base_path
         for idx, (schema, applied) in enumerate(tree):
@@ -385,6 +392,12 @@ def check_derivations(chk, rng, items, mechanism="select-derivations"):
                               f"{[a for _, a in tree]}",
                               {"kind": "derivations", "sdl": it.get("sdl"), "filters_of_this_schema": applied,
                                "tree": [a for _, a in tree], "offered": offered, "expected": expected})
+    models = chk.driver().batch([("derive_tree", {"clone": "copy", "steps": st_}) for st_, _ in pending])
+    for (steps, real_sizes), model in zip(pending, models):
+        model_sizes = [[len(v[0]), len(v[1])] for v in model]
+        chk.case(mechanism + ":filter-sets", key=steps, nontrivial=True, sample={"steps": steps, "sizes": real_sizes})
+        if real_sizes != model_sizes:
+            chk.disagreement(mechanism + ":filter-sets", {"steps": steps}, model_sizes, real_sizes)
 
 
 def check_after_load_hook(chk, rng, n, mechanism="select-after-load-hook"):
